@@ -20,6 +20,41 @@ type Env struct {
 	pkg     *types.Package
 	inPre   bool
 	depth   int
+	lastFacts []string
+	facts   *[]string // well-formedness facts about heap values read while evaluating (true of every Go heap)
+}
+
+func (env *Env) fact(f string) {
+	if env.facts == nil || f == "true" {
+		return
+	}
+	for _, g := range *env.facts {
+		if g == f {
+			return
+		}
+	}
+	*env.facts = append(*env.facts, f)
+}
+
+// wfValue records the type invariant of a value read from the heap
+func (env *Env) wfValue(t Term) Term {
+	env.vc.compDecl("$alloc", SInt)
+	al := env.vc.get(env.heap(), "$alloc")
+	switch t.Sort {
+	case SSlice:
+		env.fact(and(app("<=", app("s.arr", t.S), al), app(">=", app("s.arr", t.S), "0"), app(">=", app("s.off", t.S), "0"), app(">=", app("s.len", t.S), "0"), app(">=", app("s.cap", t.S), app("s.len", t.S)), app("<=", app("s.cap", t.S), "9223372036854775807")))
+	case SIface:
+		env.fact(and(app(">=", app("i.tag", t.S), "0"), app(">=", app("i.val", t.S), "0"), app("<=", app("i.val", t.S), al)))
+	case SInt:
+		if t.T != nil {
+			if isRefType(t.T) {
+				env.fact(and(app(">=", t.S, "0"), app("<=", t.S, al)))
+			} else if lo, hi, ok := intRange(t.T); ok {
+				env.fact(and(app("<=", lo, t.S), app("<=", t.S, hi)))
+			}
+		}
+	}
+	return t
 }
 
 type evalError struct{ msg string }
@@ -53,11 +88,32 @@ func (env *Env) evalBool(e *Expr) (s string, err error) {
 			panic(r)
 		}
 	}()
-	t := env.eval(e)
+	var facts []string
+	n := *env
+	t := n.eval(e)
 	if t.Sort != SBool {
 		return "", fmt.Errorf("clause is not boolean: %s", e.String())
 	}
+	env.lastFacts = facts
 	return t.S, nil
+}
+
+// evalGoal: the clause as a proof goal (heap type invariants may be assumed)
+func (env *Env) evalGoal(e *Expr) (string, error) {
+	s, err := env.evalBool(e)
+	if err != nil {
+		return "", err
+	}
+	return implies(and(env.lastFacts...), s), nil
+}
+
+// evalAssume: the clause as an assumption (together with the heap type invariants it mentions)
+func (env *Env) evalAssume(e *Expr) (string, error) {
+	s, err := env.evalBool(e)
+	if err != nil {
+		return "", err
+	}
+	return and(append(append([]string{}, env.lastFacts...), s)...), nil
 }
 
 func (env *Env) evalTerm(e *Expr) (t Term, err error) {
@@ -160,7 +216,8 @@ func (env *Env) objTerm(o types.Object) Term {
 		comp := "G_" + sanitize(shortPkg(ob.Pkg().Path())) + "_" + ob.Name()
 		s := vc.u.sortOf(ob.Type())
 		vc.compDecl(comp, s)
-		return mk(vc.get(env.heap(), comp), s).withType(ob.Type())
+		vc.compType[comp] = ob.Type()
+		return env.wfValue(mk(vc.get(env.heap(), comp), s).withType(ob.Type()))
 	case *types.Nil:
 		return nilTerm
 	}
@@ -230,6 +287,14 @@ func (env *Env) eval(e *Expr) Term {
 			}
 		}
 		x := env.eval(e.Args[0])
+		if id := e.Args[0]; id.Op == "ident" && !env.hasField(x, e.Name) {
+			// a variable that shadows a package name (e.g. receiver "vm" in package vm)
+			if p := env.lookupPkg(id.Name); p != nil {
+				if o := p.Scope().Lookup(e.Name); o != nil {
+					return env.objTerm(o)
+				}
+			}
+		}
 		return env.selField(x, e.Name)
 	case "index":
 		x := env.eval(e.Args[0])
@@ -298,12 +363,13 @@ func (env *Env) eval(e *Expr) Term {
 			v := fmt.Sprintf("%s!q%d", e.Name, env.depth)
 			n := env.with(e.Name, mk(v, SInt).withType(types.Typ[types.Int]))
 			n.depth = env.depth + 1
+			var qf []string
 			body := n.eval(e.Args[2])
 			rng := and(app("<=", lo.S, v), app("<", v, hi.S))
 			if e.Op == "forall" {
-				return mk(fmt.Sprintf("(forall ((%s Int)) %s)", v, implies(rng, body.S)), SBool)
+				return mk(fmt.Sprintf("(forall ((%s Int)) %s)", v, implies(and(append([]string{rng}, qf...)...), body.S)), SBool)
 			}
-			return mk(fmt.Sprintf("(exists ((%s Int)) %s)", v, and(rng, body.S)), SBool)
+			return mk(fmt.Sprintf("(exists ((%s Int)) %s)", v, and(append(append([]string{rng}, qf...), body.S)...)), SBool)
 		}
 		var s Sort
 		var ty types.Type
@@ -321,8 +387,12 @@ func (env *Env) eval(e *Expr) Term {
 		v := fmt.Sprintf("%s!q%d", e.Name, env.depth)
 		n := env.with(e.Name, mk(v, s).withType(ty))
 		n.depth = env.depth + 1
+		var qf []string
 		body := n.eval(e.Args[0])
-		return mk(fmt.Sprintf("(%s ((%s %s)) %s)", e.Op, v, s, body.S), SBool)
+		if e.Op == "forall" {
+			return mk(fmt.Sprintf("(forall ((%s %s)) %s)", v, s, implies(and(qf...), body.S)), SBool)
+		}
+		return mk(fmt.Sprintf("(exists ((%s %s)) %s)", v, s, and(append(qf, body.S)...)), SBool)
 	case "assert":
 		x := env.eval(e.Args[0])
 		ty := env.resolveType(e.Type)
@@ -342,6 +412,26 @@ func (env *Env) eval(e *Expr) Term {
 	return Term{}
 }
 
+func (env *Env) hasField(x Term, name string) bool {
+	if x.T == nil {
+		return false
+	}
+	t := x.T.Underlying()
+	if p, ok := t.(*types.Pointer); ok {
+		t = p.Elem().Underlying()
+	}
+	st, ok := t.(*types.Struct)
+	if !ok {
+		return false
+	}
+	for i := 0; i < st.NumFields(); i++ {
+		if st.Field(i).Name() == name {
+			return true
+		}
+	}
+	return false
+}
+
 func (env *Env) selField(x Term, name string) Term {
 	vc := env.vc
 	if x.T == nil {
@@ -356,7 +446,7 @@ func (env *Env) selField(x Term, name string) Term {
 		for i := 0; i < st.NumFields(); i++ {
 			if st.Field(i).Name() == name {
 				comp, fs, ft := vc.fieldCompOf(p.Elem(), i)
-				return mk(app("select", vc.get(env.heap(), comp), x.S), fs).withType(ft)
+				return env.wfValue(mk(app("select", vc.get(env.heap(), comp), x.S), fs).withType(ft))
 			}
 		}
 		efail("no field %s in %s", name, p.Elem())
@@ -388,11 +478,11 @@ func (env *Env) index(x, i Term) Term {
 			efail("indexing a slice of unknown element type")
 		}
 		comp, es := vc.elemComp(et)
-		return mk(app("select", app("select", vc.get(env.heap(), comp), app("s.arr", x.S)), app("+", app("s.off", x.S), i.S)), es).withType(et)
+		return env.wfValue(mk(app(vc.u.elt(es), app("select", vc.get(env.heap(), comp), app("s.arr", x.S)), app("s.off", x.S), i.S), es).withType(et))
 	case x.T != nil:
 		if m, ok := x.T.Underlying().(*types.Map); ok {
 			_, val, _, vs := vc.mapComps(m)
-			return mk(app("select", app("select", vc.get(env.heap(), val), x.S), i.S), vs).withType(m.Elem())
+			return env.wfValue(mk(app("select", app("select", vc.get(env.heap(), val), x.S), i.S), vs).withType(m.Elem()))
 		}
 		if strings.HasPrefix(x.Sort, "(Array ") {
 			break
@@ -616,6 +706,30 @@ func (env *Env) call(e *Expr) Term {
 	case "wrap64":
 		x := argT(0)
 		return mk(wrapInt(x.S, types.Typ[types.Int64]), SInt).withType(types.Typ[types.Int64])
+	case "wrapu64":
+		x := argT(0)
+		return mk(wrapInt(x.S, types.Typ[types.Uint64]), SInt).withType(types.Typ[types.Uint64])
+	case "sprintf":
+		f := argT(0)
+		var elems []Term
+		for i := 1; i < len(e.Args); i++ {
+			a := argT(i)
+			if a.T == nil {
+				efail("sprintf argument %d has no Go type", i)
+			}
+			var payload string
+			if a.Sort == SIface {
+				elems = append(elems, a)
+				continue
+			}
+			if isPointerLike(a.T) {
+				payload = a.S
+			} else {
+				payload = u.box(a.T, a)
+			}
+			elems = append(elems, mk(app("mk-iface", fmt.Sprint(u.tagOf(a.T)), payload), SIface))
+		}
+		return vc.sprintfTerm(f, elems)
 	case "wrap16":
 		x := argT(0)
 		return mk(wrapInt(x.S, types.Typ[types.Uint16]), SInt).withType(types.Typ[types.Uint16])
@@ -671,14 +785,18 @@ func (env *Env) call(e *Expr) Term {
 			}
 			args = append(args, a.S)
 		}
-		u.ufun(uf.Name, uf.Args, uf.Ret)
+		sym := uf.Name
+		if uf.SMT != "" {
+			sym = uf.SMT
+		}
+		u.ufun(sym, uf.Args, uf.Ret)
 		for _, ax := range uf.Axioms {
 			u.axiom(uf.Name+"."+ax[0], ax[1])
 		}
 		if len(args) == 0 {
-			return mk(uf.Name, uf.Ret)
+			return mk(sym, uf.Ret)
 		}
-		return mk(app(uf.Name, args...), uf.Ret)
+		return mk(app(sym, args...), uf.Ret)
 	}
 	efail("unknown function %s", e.Name)
 	return Term{}
